@@ -98,7 +98,7 @@ fn varint_read(b: &[u8]) -> Result<Option<(u32, usize)>, ()> {
     Err(())
 }
 
-fn broker_reply(pkt: &[u8]) -> Vec<u8> {
+fn broker_reply(mode: u64, pkt: &[u8]) -> Vec<u8> {
     let h = pkt[0];
     let typ = h >> 4;
     let Ok(Some((_, n))) = varint_read(&pkt[1..]) else { return vec![] };
@@ -125,6 +125,11 @@ fn broker_reply(pkt: &[u8]) -> Vec<u8> {
         8 if body.len() >= 2 => vec![144, 4, body[0], body[1], 0, 0],
         10 if body.len() >= 2 => vec![176, 4, body[0], body[1], 0, 0],
         12 => vec![208, 0],
+        // mode 2: a conformant CONNACK (success; session present iff no clean start was asked for)
+        1 if mode == 2 => match body.get(7) {
+            Some(fl) => vec![32, 3, if fl & 2 != 0 { 0 } else { 1 }, 0, 0],
+            None => vec![],
+        },
         _ => vec![],
     }
 }
@@ -181,7 +186,7 @@ impl IoShared {
                     if self.txbuf.len() < total {
                         break;
                     }
-                    replies.extend(broker_reply(&self.txbuf[..total]));
+                    replies.extend(broker_reply(self.broker, &self.txbuf[..total]));
                     self.txbuf.drain(..total);
                 }
             }
